@@ -62,11 +62,23 @@ func drawL2(rt *rapid.T) Case {
 func campaignL2(t *testing.T) {
 	col := ev.C()
 	rapid.Check(t, func(rt *rapid.T) {
-		c := drawL2(rt)
+		var c Case
 		var wild string
-		c.H, wild = hgen.MaybeRename(rt, c.H, 20)
+		if rapid.IntRange(0, 29).Draw(rt, "bulk?") == 7 {
+			// large requests: up to 64 operations per ModifyRequest
+			c = Case{Level: "L2", H: hgen.DrawBulk(rt, hgen.DefaultBulk())}
+			for i := rapid.IntRange(1, 4).Draw(rt, "nbatch"); i > 0; i-- {
+				c.Batch = append(c.Batch, rapid.IntRange(8, 64).Draw(rt, "bigbatch"))
+			}
+			wild = "bulk"
+		} else {
+			c = drawL2(rt)
+			c.H, wild = hgen.MaybeRename(rt, c.H, 20)
+		}
 		v := runCase(c)
-		if wild != "" {
+		if wild == "bulk" {
+			v.Class("bulk-history")
+		} else if wild != "" {
 			v.Class("renamed:" + wild)
 		}
 		col.Check(rt, ev.JSON(c), v)
